@@ -97,3 +97,64 @@ def shrink_profile_lists(case, path=('profile',)):
 
 
 SIMPLE_NET = {'rtt_us': 200, 'seg': {'mode': 'msg'}}
+
+
+# ---------------------------------------------------------------------------------------- database-as-data helpers
+def since_text(versions):
+    """Independent rendering of the 'available since' text from the database's version field."""
+    if not versions or versions[0] is None:
+        return None
+    parts = []
+    for v in versions[0].split(','):
+        cli = v.endswith('C')
+        if cli:
+            v = v[:-1]
+        if v.startswith('d'):
+            prod, ver = 'Dropbear SSH', v[1:]
+        elif v.startswith('l1'):
+            continue
+        else:
+            prod, ver = 'OpenSSH', v
+        if not ver:
+            continue
+        parts.append('%s %s%s' % (prod, ver, ' (client only)' if cli else ''))
+    if not parts:
+        return None
+    return 'available since ' + ', '.join(parts)
+
+
+def reference(cat, dbname):
+    desc = gen.db()['ssh2'][cat][dbname]
+    notes = []
+    for idx, lv in ((1, 'fail'), (2, 'warn'), (3, 'info')):
+        if len(desc) > idx:
+            notes += [(lv, t) for t in desc[idx] if t is not None]
+    st = since_text(desc[0])
+    if st:
+        notes.append(('info', st))
+    return sorted(notes)
+
+
+
+
+TERRAPIN = 'vulnerable to the Terrapin attack (CVE-2023-48795), allowing message prefix truncation'
+
+
+def extra_levels(cat, name, notes):
+    """Levels (fail/warn) of the notes a report shows for (cat, name) beyond the static database entry and the Terrapin
+    note: these are the notes that stem from *measured* attributes (key / CA / modulus sizes), whatever their wording."""
+    key = name
+    if cat == 'kex' and name.startswith('gss-'):
+        key = name[:name.rindex('-')] + '-*'
+    if key not in gen.db()['ssh2'][cat]:
+        return None
+    base = list(reference(cat, key))
+    extra = []
+    for lv, t in notes:
+        if (lv, t) in base:
+            base.remove((lv, t))
+        elif t == TERRAPIN:
+            continue
+        elif lv in ('fail', 'warn'):
+            extra.append(lv)
+    return sorted(set(extra))
